@@ -1451,7 +1451,7 @@ func TestVerif_C33_race(t *testing.T) {
 			return
 		}
 
-		reps := mc.Pick(r, 2, 20)
+		reps := mc.Pick(r, 1, 20) // a race-instrumented execution costs 10-20 ms; the detector does not need repetition to see unsynchronised sharing
 		procs := []int{4, 16}
 		r.Rule("every ordered selection of 2 transactions of the full alphabet (incl. the BLOCKHASH units of three senders) on top of 7 empty ancestors; each block executed reps times by the access-list-driven processor per GOMAXPROCS value, " +
 			"result digest (gas, state root, receipt root, requests hash, rebuilt access list) compared with sequential execution, ValidateState must accept; the step runs under the Go race detector")
